@@ -153,6 +153,11 @@ def x12n_document(param, src_file, fd_997, fd_html,
                     #_reset_counter_to_isa_counts(walker)  # new counter
                 #reset_gs_counts(cur_map)
                 #_reset_counter_to_gs_counts(walker)  # new counter
+                if cur_map is None:
+                    # the index answered with the control map itself (GS01 and GS08 empty):
+                    # there is no transaction map for this group
+                    err_str = "Map not found.  icvn={}, fic={}, vriic={}".format(icvn, fic, vriic)
+                    raise pyx12.errors.EngineError(err_str)
                 node = cur_map.getnodebypath('/ISA_LOOP/GS_LOOP/GS')
                 errh.add_gs_loop(seg, src)
                 errh.handle_errors(src.pop_errors())
